@@ -246,6 +246,106 @@ def run_schedule(rp, choices, drain=True):
     return obs, done, rec, quiet
 
 
+def run_bulk(rp, tasks):
+    """the real Popen.work on a bulk [(uid, launch fails, exit code)], then the processes exit and the
+    watcher makes its passes (no interference between threads: the intake finishes first)"""
+    import radical.pilot.agent.executing.popen as popen_mod
+    import radical.utils as ru
+    rec, fault_box = [], {'fault': False}
+    p = make_executor(rp, rec, fault_box)
+    procs, cur = {}, {'uid': None}
+    class _RM(object):
+        def find_launcher(self, task):
+            cur['uid'] = task['uid']
+            if task['uid'] in failing: return None, None
+            return Launcher(), 'FORK'
+        def get_launcher(self, name): return Launcher()
+    p._rm = _RM()
+    failing = set('task.%06d' % u for u, f, c in tasks if f)
+    tds = []
+    for u, f, c in tasks:
+        t = dict({'uid': 'task.%06d' % u, 'state': 'AGENT_EXECUTING_PENDING', 'origin': 'client',
+                  'description': {'timeout': 0.0, 'startup_timeout': 0.0, 'stdout': None, 'stderr': None},
+                  'task_sandbox_path': '.', 'slots': []})
+        tds.append(t)
+    def fake_popen(*a, **k):
+        f = FakeProc()
+        procs[cur['uid']] = f
+        return f
+    class _F(object):
+        def write(self, *a): pass
+        def close(self): pass
+    saved = (popen_mod.sp.Popen, ru.ru_open)
+    popen_mod.sp.Popen = fake_popen
+    ru.ru_open = lambda *a, **k: _F()
+    ctl = coop.Controller()
+    try:
+        def intake():
+            p.work(tds)
+        ctl.spawn('intake', intake)
+        for _ in range(400):
+            if ctl.where('intake') == 'done': break
+            ctl.grant('intake')
+        codes = {'task.%06d' % u: c for u, f, c in tasks}
+        for uid, f in procs.items():
+            f.code = codes[uid]
+        to_watch = []
+        def watcher():
+            try:
+                while True: to_watch.append(p._watch_queue.get_nowait())
+            except queue.Empty:
+                pass
+            p._check_running(to_watch)
+        ctl.spawn('watcher', watcher)
+        for _ in range(2000):
+            if ctl.where('watcher') == 'done': break
+            ctl.grant('watcher')
+    finally:
+        popen_mod.sp.Popen, ru.ru_open = saved
+    evs = []
+    for r in rec:
+        n = int(r[1].split('.')[1])
+        if r[0] == 'unsched': evs.append(['unsched', n])
+        elif r[2] == 'AGENT_EXECUTING': evs.append(['start', n])
+        elif r[2] == 'FAILED': evs.append(['failed', n])
+        elif r[2] == 'AGENT_STAGING_OUTPUT_PENDING': evs.append(['handed', n, r[4]])
+        else: evs.append(['other', n, r[2]])
+    return evs
+
+
+def bulk_monitor(tasks, evs):
+    for u, f, c in tasks:
+        st = sum(1 for e in evs if e[:2] == ['start', u])
+        un = sum(1 for e in evs if e[:2] == ['unsched', u])
+        fa = sum(1 for e in evs if e[:2] == ['failed', u])
+        ha = [e for e in evs if e[:2] == ['handed', u]]
+        if st != 1: return ('bulk:execution-start-announced-%d-times' % st, 'task %d' % u)
+        if fa + len(ha) != 1: return ('bulk:task-handed-on-%d-times' % (fa + len(ha)), 'task %d (launch %s): failed x%d, handed on %s'
+                                      % (u, 'fails' if f else 'ok', fa, ha))
+        if un != 1: return ('bulk:resources-released-%d-times' % un, 'task %d' % u)
+        if f and not fa: return ('bulk:unlaunchable-task-not-failed', 'task %d' % u)
+        if not f and ha[0][2] != ('DONE' if c == 0 else 'FAILED'): return ('bulk:outcome-differs-from-exit-code', 'task %d: %s, exit %d' % (u, ha[0], c))
+    return None
+
+
+def bulk_part(ctx, rp):
+    rng = ctx.rng
+    ops, impl = [], []
+    bulks = [[(0, False, 0), (1, True, 0), (2, False, 3)], [(0, True, 0)], [(3, True, 0), (1, True, 0)], [(0, False, 1), (1, False, 0)]]
+    for _ in range(ctx.n(120, 3000)):
+        n = rng.randint(1, 5)
+        bulks.append([(u, rng.random() < 0.3, rng.choice([0, 0, 1, 7])) for u in rng.sample(range(8), n)])
+    for b in bulks:
+        evs = run_bulk(rp, b)
+        ops.append({'op': 'bulk', 'tasks': [{'uid': u, 'fault': f, 'code': c} for u, f, c in b]})
+        impl.append(evs)
+        ctx.case(ops[-1], nontrivial=any(f for u, f, c in b) and len(b) > 1)
+        bad = bulk_monitor(b, evs)
+        if bad:
+            ctx.fail(bad[0], bad[1], {'kind': 'bulk', 'tasks': [list(x) for x in b]}, observed=evs)
+    common.compare(ctx, 'exec', ops, impl, what='real Popen.work on bulks with unlaunchable tasks + watcher pass: events in order')
+
+
 def monitor(obs, rec, quiet, drained):
     last = obs[-1] if obs else None
     for o in obs:
@@ -290,6 +390,7 @@ def model_choices(done):
 def run(ctx):
     rp  = rpload.load()
     rng = ctx.rng
+    bulk_part(ctx, rp)
     scheds = [
         ['intake', 'intake', 'intake', 'intake', 'watcher', 'watcher', ['exit', 0], 'watcher', 'watcher'],
         ['intake', 'intake', 'intake', 'cancel_req', 'intake', ['cancel', 0], 'watcher', ['cancel', 0], ['exit', 1],
@@ -329,6 +430,12 @@ def run(ctx):
 
 def replay(ctx, data):
     rp = rpload.load()
+    if data['input'].get('kind') == 'bulk':
+        b = [tuple(x) for x in data['input']['tasks']]
+        evs = run_bulk(rp, b)
+        bad = bulk_monitor(b, evs)
+        print(evs, bad)
+        return not bad
     obs, done, rec, quiet = run_schedule(rp, data['input']['choices'])
     bad = monitor(obs, rec, quiet, True)
     for r in rec: print(r)
